@@ -14,6 +14,13 @@
 (*                                                                          *)
 (* Level = "inner": the constraints are declared on s (one table per s);     *)
 (* Level = "outer": declared on r with selector s/k (one table per document).*)
+(* Level = "cross": the key / unique is declared on s, the key reference on r  *)
+(* (selector s/f): the node tables of the scope elements are PROPAGATED to r   *)
+(* (Identity-constraint Satisfied, clause 4.2.2 / 4.2.3): r sees the union of   *)
+(* the tables of its children minus the key sequences that occur in more than  *)
+(* one of them (conflicts are dropped), and the references of r resolve in it.  *)
+(* CrossVariant = "lastscope" is the implementation-shaped deviation: the        *)
+(* references resolve against the table of the LAST scope element only.         *)
 (*                                                                          *)
 (* Two formulations: the streaming machine (what a one-pass validator does:  *)
 (* reset tables on entering the declaring element, collect on every selected *)
@@ -29,6 +36,8 @@ CONSTANTS NF,         \* number of fields: 1 or 2
           MaxScopes,  \* scope elements
           RowKinds,   \* subset of {"k", "f", "i", "p", "j", "q"}
           IdVer       \* "1.0" | "1.1": an ID-typed CHILD element identifies ... (see Binder)
+CrossVariant == "intended"     \* the refutation run substitutes LastScopeVariant (cfg: CrossVariant <- LastScopeVariant)
+LastScopeVariant == "lastscope"
 
 None == "none"
 Val == {"v1", "v2"}
@@ -48,7 +57,7 @@ Qualified(t) == \A i \in DOMAIN t : t[i] # None
 Flatten(d) == LET RECURSIVE F(_)
                   F(i) == IF i > Len(d) THEN <<>> ELSE d[i] \o F(i + 1)
               IN F(1)
-Tables(d) == IF Level = "inner" THEN d ELSE <<Flatten(d)>>       \* one table per declaring element
+Tables(d) == IF Level \in {"inner", "cross"} THEN d ELSE <<Flatten(d)>>       \* one table per declaring element
 KeyRows(tb) == {i \in DOMAIN tb : tb[i].k = "k"}
 RefRows(tb) == {i \in DOMAIN tb : tb[i].k = "f"}
 DeclDup(tb) == \E i \in KeyRows(tb) : \E j \in KeyRows(tb) :
@@ -57,6 +66,12 @@ DeclMissing(tb) == KeyKind = "key" /\ \E i \in KeyRows(tb) : ~Qualified(tb[i].t)
 DeclDangling(tb) == \E i \in RefRows(tb) :
                       /\ Qualified(tb[i].t)
                       /\ ~\E j \in KeyRows(tb) : Qualified(tb[j].t) /\ tb[j].t = tb[i].t
+(* cross level: the table that r inherits from its children, and the references of r *)
+KeySeqs(tb) == {tb[i].t : i \in {j \in KeyRows(tb) : Qualified(tb[j].t)}}
+Propagated(d) == {t \in Tuples : Cardinality({sc \in DOMAIN d : t \in KeySeqs(d[sc])}) = 1}
+LastScopeOnly(d) == IF d = <<>> THEN {} ELSE KeySeqs(d[Len(d)])
+AllRefs(d) == LET f == Flatten(d) IN {f[i].t : i \in {j \in RefRows(f) : Qualified(f[j].t)}}
+CrossDanglingIn(d, table) == \E t \in AllRefs(d) : t \notin table
 IdRows(d)  == LET f == Flatten(d) IN {i \in DOMAIN f : f[i].k \in {"i", "j"}}
 (* Which element an ID value identifies.  An ID-typed ATTRIBUTE identifies its owner (the row). *)
 (* An ID-typed child ELEMENT: in XSD 1.0 every occurrence counts on its own; in XSD 1.1 it       *)
@@ -73,9 +88,13 @@ DeclIdref(d) == LET f == Flatten(d) IN
 DeclKinds(d) ==
   (IF \E x \in DOMAIN Tables(d) : DeclDup(Tables(d)[x]) THEN {"dup"} ELSE {})
   \cup (IF \E x \in DOMAIN Tables(d) : DeclMissing(Tables(d)[x]) THEN {"missing"} ELSE {})
-  \cup (IF \E x \in DOMAIN Tables(d) : DeclDangling(Tables(d)[x]) THEN {"dangling"} ELSE {})
+  \cup (IF Level # "cross" /\ \E x \in DOMAIN Tables(d) : DeclDangling(Tables(d)[x]) THEN {"dangling"} ELSE {})
+  \cup (IF Level = "cross" /\ CrossDanglingIn(d, Propagated(d)) THEN {"dangling"} ELSE {})
   \cup (IF DeclIdDup(d) THEN {"iddup"} ELSE {})
   \cup (IF DeclIdref(d) THEN {"idref"} ELSE {})
+(* what the deviation "lastscope" reports *)
+LastScopeKinds(d) == (DeclKinds(d) \ {"dangling"})
+                     \cup (IF CrossDanglingIn(d, LastScopeOnly(d)) THEN {"dangling"} ELSE {})
 
 ------------------------------------------------------------------------------
 (* The streaming machine                                                      *)
@@ -86,13 +105,14 @@ VARIABLES doc,      \* ghost: the document read so far (sequence of scopes)
           ids,      \* set of ID values seen in the document
           idrefs,   \* set of IDREF values seen in the document
           errs,     \* error kinds reported so far
-          nrows
-vars == <<doc, phase, keys, refs, ids, idrefs, errs, nrows>>
+          nrows,
+          up        \* cross level: tuple -> number of finished scopes whose table holds it (the propagation)
+vars == <<doc, phase, keys, refs, ids, idrefs, errs, nrows, up>>
 
 EmptyTab == [t \in Tuples |-> 0]
 
 Init == /\ doc = <<>> /\ phase = "root" /\ keys = EmptyTab /\ refs = {}
-        /\ ids = {} /\ idrefs = {} /\ errs = {} /\ nrows = 0
+        /\ ids = {} /\ idrefs = {} /\ errs = {} /\ nrows = 0 /\ up = EmptyTab
 
 Resolve(ks, rs) == IF \E t \in rs : ks[t] = 0 THEN {"dangling"} ELSE {}
 
@@ -100,9 +120,10 @@ Resolve(ks, rs) == IF \E t \in rs : ks[t] = 0 THEN {"dangling"} ELSE {}
 EnterScope == /\ phase = "root" /\ Len(doc) < MaxScopes
               /\ doc' = Append(doc, <<>>)
               /\ phase' = "scope"
-              /\ IF Level = "inner" THEN keys' = EmptyTab /\ refs' = {}
-                                    ELSE UNCHANGED <<keys, refs>>
-              /\ UNCHANGED <<ids, idrefs, errs, nrows>>
+              /\ CASE Level = "inner" -> keys' = EmptyTab /\ refs' = {}
+                   [] Level = "cross" -> keys' = EmptyTab /\ UNCHANGED refs      \* the references belong to r
+                   [] OTHER -> UNCHANGED <<keys, refs>>
+              /\ UNCHANGED <<ids, idrefs, errs, nrows, up>>
 
 Select(r) == /\ phase = "scope" /\ nrows < MaxRows
              /\ doc' = [doc EXCEPT ![Len(doc)] = Append(@, r)]
@@ -128,20 +149,25 @@ Select(r) == /\ phase = "scope" /\ nrows < MaxRows
                   [] r.k = "q" ->
                        /\ UNCHANGED <<keys, refs, ids, errs>>
                        /\ idrefs' = idrefs \cup {<<r.t[1]>>, <<r.t[2]>>}
-             /\ UNCHANGED phase
+             /\ UNCHANGED <<phase, up>>
 
 (* leaving the scope element: key references of an inner constraint resolve   *)
 LeaveScope == /\ phase = "scope"
               /\ phase' = "root"
               /\ errs' = errs \cup (IF Level = "inner" THEN Resolve(keys, refs) ELSE {})
+              /\ up' = IF Level = "cross" THEN [t \in Tuples |-> up[t] + (IF keys[t] > 0 THEN 1 ELSE 0)] ELSE up
               /\ UNCHANGED <<doc, keys, refs, ids, idrefs, nrows>>
 
 (* end of the root element / document *)
 EndDoc == /\ phase = "root"
           /\ phase' = "done"
           /\ errs' = errs \cup (IF Level = "outer" THEN Resolve(keys, refs) ELSE {})
+                          \cup (IF Level = "cross" /\ CrossVariant = "intended" /\ \E t \in refs : up[t] # 1
+                                  THEN {"dangling"} ELSE {})
+                          \cup (IF Level = "cross" /\ CrossVariant = "lastscope" /\ \E t \in refs : keys[t] = 0
+                                  THEN {"dangling"} ELSE {})
                           \cup (IF idrefs \subseteq {x[1] : x \in ids} THEN {} ELSE {"idref"})
-          /\ UNCHANGED <<doc, keys, refs, ids, idrefs, nrows>>
+          /\ UNCHANGED <<doc, keys, refs, ids, idrefs, nrows, up>>
 
 Next == EnterScope \/ LeaveScope \/ EndDoc \/ \E r \in Rows : Select(r)
 Spec == Init /\ [][Next]_vars
@@ -153,6 +179,6 @@ ErrorsMonotone == [][errs \subseteq errs']_vars
 
 Emit == IF phase = "done"
         THEN PrintT(ToJson([nf |-> NF, kind |-> KeyKind, level |-> Level, doc |-> doc,
-                            kinds |-> errs]))
+                            kinds |-> errs, lastscope |-> LastScopeKinds(doc)]))
         ELSE TRUE
 =============================================================================
